@@ -358,9 +358,22 @@ class Emitter:
     (lean_text, type) where type is one of i32/u32/i64/u64 (already promoted), 'bool', or
     'char'/'uchar' for byte values (lean text must be a `BitVec 8`).  `index` handles a[i] / *p."""
 
-    def __init__(self, env, index=None):
+    def __init__(self, env, index=None, calls=None):
         self.env = env
         self.index = index
+        # calls: C function name -> (result, lean_name) with result 'bool' (an int used as a truth value) or a type of WIDTH;
+        # the single argument must be a byte (`*p`, `p[k]`, a `char` variable), passed to the Lean function as a `BitVec 8`
+        self.calls = calls or {}
+
+    def call(self, e):
+        name, args = e[1], e[2]
+        if name not in self.calls or len(args) != 1:
+            raise ExtractError(f'cmini: call of {name} with {len(args)} argument(s) not supported')
+        txt, ty = self.value_nopromote(args[0])
+        if ty not in ('char', 'uchar'):
+            raise ExtractError(f'cmini: argument of {name} is not a byte')
+        res, lean = self.calls[name]
+        return f'({lean} ({txt}))', res
 
     def lit(self, v, w):
         return f'0x{v:X}#{w}' if v > 9 else f'{v}#{w}'
@@ -404,6 +417,11 @@ class Emitter:
             if ty == 'bool':
                 raise ExtractError(f'cmini: boolean {e[1]} used as a value')
             return self.promote(txt, ty)
+        if k == 'call':
+            txt, res = self.call(e)
+            if res == 'bool':
+                raise ExtractError(f'cmini: truth value of {e[1]}() used as a number')
+            return txt, res
         if k in ('idx', 'un') and (k == 'idx' or e[1] == '*'):
             if self.index is None:
                 raise ExtractError('cmini: memory access not expected here')
@@ -486,5 +504,7 @@ class Emitter:
             return f'(({a}).toInt {lop} ({b}).toInt)'
         if k == 'id' and e[1] in self.env and self.env[e[1]][1] == 'bool':
             return f'({self.env[e[1]][0]} = true)'
+        if k == 'call' and e[1] in self.calls and self.calls[e[1]][0] == 'bool':
+            return f'({self.call(e)[0]} = true)'
         txt, ty = self.value(e)
         return f'(({txt}) ≠ 0#{WIDTH[ty]})'
